@@ -1,6 +1,7 @@
 package sim
 
 import (
+	"strconv"
 	"time"
 
 	"verif/sim/model"
@@ -33,8 +34,19 @@ func Minimise(rf *RunFile, prop string, budget time.Duration) *RunFile {
 		c.Violation = o.V
 		return true
 	}
+	// position-enumeration run files protect their target and follow-up ops
+	tgt := -1
+	if t, ok := rf.Cfg["target"]; ok {
+		tgt, _ = strconv.Atoi(t)
+	}
+	limit := func() int {
+		if tgt >= 0 {
+			return tgt
+		}
+		return len(best.Ops)
+	}
 	// 1. truncate
-	if best.Violation.OpIdx+1 < len(best.Ops) {
+	if tgt < 0 && best.Violation.OpIdx+1 < len(best.Ops) {
 		c := best.Clone()
 		c.Ops = c.Ops[:best.Violation.OpIdx+1]
 		if test(c) {
@@ -42,12 +54,18 @@ func Minimise(rf *RunFile, prop string, budget time.Duration) *RunFile {
 		}
 	}
 	// 2. ddmin over ops
-	for chunk := len(best.Ops) / 2; chunk >= 1; chunk /= 2 {
-		for start := 0; start+chunk <= len(best.Ops); {
+	for chunk := limit() / 2; chunk >= 1; chunk /= 2 {
+		for start := 0; start+chunk <= limit(); {
 			c := best.Clone()
 			c.Ops = append(append([]Op{}, best.Ops[:start]...), best.Ops[start+chunk:]...)
+			if tgt >= 0 {
+				c.Cfg["target"] = strconv.Itoa(tgt - chunk)
+			}
 			if len(c.Ops) > 0 && test(c) {
 				best = c
+				if tgt >= 0 {
+					tgt -= chunk
+				}
 			} else {
 				start += chunk
 			}
